@@ -219,6 +219,151 @@ theorem insertPhis_vars (df : Nat → List Nat) (written : Nat → List Var) (Q 
         · exact hQ cur v h3
         · exact hP cur v h3
 
+-- ---------------------------------------------------------------------------- termination of the work list
+
+/-- the rows of a placement: nothing outside the graph, no variable twice, only variables that are written -/
+structure RowsOK (n : Nat) (allW : List Var) (P : Phis) : Prop where
+  out : ∀ j, n ≤ j → P j = []
+  nodup : ∀ j, (P j).Nodup
+  sub : ∀ j v, v ∈ P j → v ∈ allW
+
+def sizeP (n : Nat) (P : Phis) : Nat := ((List.range n).map (fun j => (P j).length)).sum
+
+theorem sum_map_succ_at (f f' : Nat → Nat) (i : Nat) : ∀ (l : List Nat), l.Nodup → i ∈ l →
+    (∀ k, k ≠ i → f' k = f k) → f' i = f i + 1 → (l.map f').sum = (l.map f).sum + 1 := by
+  intro l
+  induction l with
+  | nil => intro _ hi; cases hi
+  | cons x xs ih =>
+    intro hnd hi hoth hat
+    simp only [List.map_cons, List.sum_cons]
+    have hnd' := List.nodup_cons.mp hnd
+    by_cases hx : x = i
+    · subst hx
+      have : xs.map f' = xs.map f := by
+        apply List.map_congr_left
+        intro k hk
+        exact hoth k (fun e => hnd'.1 (e ▸ hk))
+      rw [this, hat]; omega
+    · have hi' : i ∈ xs := by
+        rcases List.mem_cons.mp hi with e | e
+        · exact absurd e.symm hx
+        · exact e
+      rw [hoth x hx, ih hnd'.2 hi' hoth hat]; omega
+
+theorem sizeP_addPhi (n : Nat) (P : Phis) (j : Nat) (v : Var) (hj : j < n) : sizeP n (addPhi P j v) = sizeP n P + 1 := by
+  unfold sizeP
+  apply sum_map_succ_at _ _ j (List.range n) List.nodup_range (List.mem_range.mpr hj)
+  · intro k hk; simp [addPhi, hk]
+  · simp [addPhi]
+
+theorem sizeP_le (n : Nat) (allW : List Var) (P : Phis) (h : RowsOK n allW P) : sizeP n P ≤ n * allW.length := by
+  unfold sizeP
+  have : ∀ (l : List Nat), ((l.map (fun j => (P j).length)).sum) ≤ l.length * allW.length := by
+    intro l
+    induction l with
+    | nil => simp
+    | cons x xs ih =>
+      simp only [List.map_cons, List.sum_cons, List.length_cons]
+      have := List.Nodup.length_le_of_subset (h.nodup x) (fun v hv => h.sub x v hv)
+      rw [Nat.add_mul]; omega
+  simpa using this (List.range n)
+
+theorem rowsOK_addPhi (n : Nat) (allW : List Var) (P : Phis) (j : Nat) (v : Var) (h : RowsOK n allW P)
+    (hj : j < n) (hv : v ∈ allW) (hnew : hasPhi P j v = false) : RowsOK n allW (addPhi P j v) := by
+  refine ⟨?_, ?_, ?_⟩
+  · intro k hk
+    have : k ≠ j := by omega
+    simp [addPhi, this, h.out k hk]
+  · intro k
+    by_cases hkj : k = j
+    · subst hkj
+      simp only [addPhi, if_true]
+      exact List.nodup_cons.mpr ⟨by simpa [hasPhi] using hnew, h.nodup k⟩
+    · simp [addPhi, hkj, h.nodup k]
+  · intro k u hu
+    rcases (mem_addPhi P j v k u).mp hu with h1 | ⟨_, h2⟩
+    · exact h.sub k u h1
+    · rw [h2]; exact hv
+
+/-- one frontier block: as many pushes as new phi statements -/
+theorem frontierStep_count (n : Nat) (allW : List Var) (j : Nat) (hj : j < n) : ∀ (W : List Var) (P : Phis) (wl : List Nat),
+    (∀ v, v ∈ W → v ∈ allW) → RowsOK n allW P →
+    let r := frontierStep W j (P, wl)
+    RowsOK n allW r.1 ∧ ∃ k, sizeP n r.1 = sizeP n P + k ∧ r.2.length = wl.length + k := by
+  intro W
+  induction W with
+  | nil => intro P wl _ h; exact ⟨h, 0, rfl, rfl⟩
+  | cons w ws ih =>
+    intro P wl hW h
+    simp only [frontierStep, List.foldl_cons]
+    by_cases hp : hasPhi P j w = true
+    · simp only [hp, if_true]
+      exact ih P wl (fun v hv => hW v (List.mem_cons_of_mem _ hv)) h
+    · have hp' : hasPhi P j w = false := by simpa using hp
+      simp only [hp', Bool.false_eq_true, if_false]
+      have h1 := rowsOK_addPhi n allW P j w h hj (hW w List.mem_cons_self) hp'
+      obtain ⟨r1, k, e1, e2⟩ := ih (addPhi P j w) (wl ++ [j]) (fun v hv => hW v (List.mem_cons_of_mem _ hv)) h1
+      have e1' : sizeP n (frontierStep ws j (addPhi P j w, wl ++ [j])).1 = sizeP n P + (k + 1) := by
+        rw [e1, sizeP_addPhi n P j w hj]; omega
+      have e2' : (frontierStep ws j (addPhi P j w, wl ++ [j])).2.length = wl.length + (k + 1) := by
+        rw [e2]; simp; omega
+      exact ⟨r1, k + 1, e1', e2'⟩
+
+theorem frontierFold_count (n : Nat) (allW : List Var) (W : List Var) (hW : ∀ v, v ∈ W → v ∈ allW) :
+    ∀ (fr : List Nat) (P : Phis) (wl : List Nat), (∀ j, j ∈ fr → j < n) → RowsOK n allW P →
+    let r := fr.foldl (fun acc j => frontierStep W j acc) (P, wl)
+    RowsOK n allW r.1 ∧ ∃ k, sizeP n r.1 = sizeP n P + k ∧ r.2.length = wl.length + k := by
+  intro fr
+  induction fr with
+  | nil => intro P wl _ h; exact ⟨h, 0, rfl, rfl⟩
+  | cons j js ih =>
+    intro P wl hfr h
+    simp only [List.foldl_cons]
+    obtain ⟨s1, k1, a1, a2⟩ := frontierStep_count n allW j (hfr j List.mem_cons_self) W P wl hW h
+    obtain ⟨s2, k2, b1, b2⟩ := ih (frontierStep W j (P, wl)).1 (frontierStep W j (P, wl)).2
+      (fun x hx => hfr x (List.mem_cons_of_mem _ hx)) s1
+    exact ⟨s2, k1 + k2, by rw [b1, a1]; omega, by rw [b2, a2]; omega⟩
+
+/-- **the work list terminates**: with `|work list| + 2 * (n * |variables| - |phis placed|)` fuel the run ends
+    with an empty list -/
+theorem insertPhis_terminates (n : Nat) (allW : List Var) (df : Nat → List Nat) (written : Nat → List Var)
+    (hdf : ∀ x j, j ∈ df x → j < n) (hwr : ∀ x v, v ∈ written x → v ∈ allW) :
+    ∀ (fuel : Nat) (wl : List Nat) (P : Phis), RowsOK n allW P →
+      wl.length + 2 * (n * allW.length - sizeP n P) ≤ fuel → ∃ Pf, insertPhis df written fuel wl P = some Pf := by
+  intro fuel
+  induction fuel with
+  | zero =>
+    intro wl P h hm
+    have : wl = [] := by
+      cases wl with
+      | nil => rfl
+      | cons x xs => simp at hm
+    subst this
+    exact ⟨P, by simp [insertPhis]⟩
+  | succ f ih =>
+    intro wl P h hm
+    simp only [insertPhis]
+    cases hl : wl.getLast? with
+    | none => exact ⟨P, rfl⟩
+    | some cur =>
+      simp only
+      have hsplit := getLast_split wl cur hl
+      have hlen : wl.length = wl.dropLast.length + 1 := by
+        have := congrArg List.length hsplit; simpa using this
+      have hW : ∀ v, v ∈ written cur ++ P cur → v ∈ allW := by
+        intro v hv
+        rcases List.mem_append.mp hv with h1 | h1
+        · exact hwr cur v h1
+        · exact h.sub cur v h1
+      obtain ⟨r1, k, e1, e2⟩ := frontierFold_count n allW (written cur ++ P cur) hW (df cur) P wl.dropLast (hdf cur) h
+      have hb := sizeP_le n allW _ r1
+      have hb0 := sizeP_le n allW P h
+      apply ih _ _ r1
+      rw [e2, e1]
+      rw [e1] at hb
+      omega
+
 -- ---------------------------------------------------------------------------- part 2: the renaming
 
 open Circomspect.Graph Circomspect.DominatorLemmas
